@@ -72,6 +72,12 @@ def gen_cases(tier, seed):
                       'policy': rng.choice(('random', 'lazy', 'eager')), 'p': 0.3, 'many': 230 if tier == 'quick' else 460,
                       'latency': rng.choice((None, None, (0, 0.1, 1))), 'two_step': i % 4 == 1, 'sample': i < 2, 'race': i % 4 == 3,
                       'prefetch': rng.choice((2, 100))})
+    # a single unconfirmed chain spanning three fetch batches (200 + 200 + a few), batches answered in any order
+    for j in range(16 if tier == 'quick' else 120):
+        cases.append({'seed': rng.randrange(1 << 30), 'steps': ['add_long_chain', 'add', 'mine_some', 'add_long_chain'][:rng.choice((2, 4))],
+                      'txindex': j % 2 == 0, 'colls': 0, 'policy': rng.choice(('random', 'lazy', 'eager')), 'p': 0.3,
+                      'long_chain': rng.choice((401, 401, 402, 403, 201, 601)), 'latency': rng.choice((None, (0, 0.1, 1))), 'two_step': False,
+                      'race': False, 'prefetch': 100})
     # a parent confirmed between the listing and the fetch of a refresh while its child stays: whatever that refresh drops must
     # be picked up by the next one
     for j in range(16 if tier == "quick" else 60):
@@ -91,11 +97,11 @@ def run(tier, seed, replay=None):
     c = rep.counters
     for name, minimum in {'synchronised_refreshes_compared': 300, 'nonempty_views_compared': 1000, 'touched_completeness_checks': 250,
                           'scripthashes_that_changed': 500, 'step:add_chain': 10, 'step:mine_parents': 10, 'step:add_genlike': 10,
-                          'step:evict': 10, 'step:add_many': 3, 'invariant_evaluations': 10000, 'steps_placed_inside_a_refresh': 10}.items():
+                          'step:evict': 10, 'step:add_many': 3, 'step:add_long_chain': 12, 'invariant_evaluations': 10000, 'steps_placed_inside_a_refresh': 10}.items():
         rep.floor(name, c[name], minimum)
     return rep.finish(
         rule='sequences of 4-9 daemon mempool/chain steps (arrivals with confirmed/unconfirmed parents, chains of 8-30 unconfirmed txs, '
-             'pools of 230/460 txs crossing the 200-hash fetch batches, evictions, blocks confirming all/none/some/only-parents, '
+             'pools of 230/460 txs crossing the 200-hash fetch batches, single chains of 201/401-403/601 txs (a last fetch batch of one to three txs), evictions, blocks confirming all/none/some/only-parents, '
              'generation-like inputs, several outputs to one script) over a real index, txindex on/off; after each step the harness '
              'waits for a refresh that began and ended with the daemon unchanged and the index at the daemon height (recorded at the '
              'MemPoolAPI hand-over) and compares, for every script hash, balance delta, summaries (hash, fee, flag), unconfirmed UTXOs, '
